@@ -236,7 +236,10 @@ def run_case(R, level, op, args, community="public", ctx_name=b"", ctx_engine=b"
     ckw = {}
     if level.startswith("v3"):
         ckw = {"context_name": ctx_name, "engine_id": ctx_engine}
-    w = World(level, db, community=community, client_kwargs=ckw, agent_kwargs={"any_context": True})
+    akw = {"any_context": True}
+    if args.get("agent_engine") is not None:
+        akw["engine_id"] = args["agent_engine"]
+    w = World(level, db, community=community, client_kwargs=ckw, agent_kwargs=akw)
     ctx = Ctx(level, community, ctx_name if level.startswith("v3") else b"", ctx_engine if level.startswith("v3") else b"", w)
     w.seam.budget = 120
     case = {"level": level, "op": op, "args": rig.jsonable({k: v for k, v in args.items() if k != "db"}), "db": enc_db(db) if "db" in args else None,
@@ -439,6 +442,9 @@ def run(R):
             rid = rng.choice(RID_SWEEP)
         elif r < 0.45:
             rid_patched = rng.choice(RID_PATCHED)
+        if level.startswith("v3") and rng.random() < 0.25:
+            # agent engine ids with runs of zero octets (NUL-padded text ids), short and long
+            args["agent_engine"] = rng.choice((b"\x80\x00\x1f\x88\x04ab" + b"\x00" * rng.choice((11, 12, 13, 25)), b"\x80\x00\x00\x00\x05", bytes([0x80]) + bytes(rng.getrandbits(8) for _ in range(31))))
         via = None
         if rng.random() < 0.3:
             via = (rng.choice(("configure", "reconfigure")), rng.choice([lv for lv in ("v1", "v2c", "v3-noauth", "v3-md5", "v3-sha1-priv") if lv != level]))
@@ -483,6 +489,8 @@ def replay(R, v):
 
     args = {k: fix(val) for k, val in c["args"].items()}
     args["oids"] = [tuple(o) for o in args.get("oids", [])]
+    if args.get("agent_engine") is not None and not isinstance(args["agent_engine"], bytes):
+        args["agent_engine"] = bytes(args["agent_engine"])
     if "values" in args:
         args["values"] = [(val[0], val[1]) for val in args["values"]]
     if c.get("db"):
